@@ -246,3 +246,35 @@ Proof.
   - exists (AngleInterval_start i). split; [|exact H].
     apply (contains_complete i Hi1 Hi2 _ 0); [lra|]. rewrite Rplus_0_r. apply same_dir_refl.
 Qed.
+
+(* intersects, completeness: two intervals whose swept arcs share an angle exactly are reported as intersecting
+   (the start of one of them then lies in the other) *)
+Theorem intersects_complete (i j : @AngleInterval RNum) (t u : R) :
+  0 <= AngleInterval_start i < 2 * PI -> 0 <= AngleInterval_angle i <= 2 * PI ->
+  0 <= AngleInterval_start j < 2 * PI -> 0 <= AngleInterval_angle j <= 2 * PI ->
+  0 <= t <= AngleInterval_angle i -> 0 <= u <= AngleInterval_angle j ->
+  same_dir (AngleInterval_start i + t) (AngleInterval_start j + u) ->
+  @AngleInterval_intersects RNum i j = true.
+Proof.
+  intros Hi1 Hi2 Hj1 Hj2 Ht Hu [k Ek]. pose proof two_pi_pos as Hp.
+  set (si := AngleInterval_start i) in *. set (sj := AngleInterval_start j) in *.
+  set (ei := AngleInterval_angle i) in *. set (ej := AngleInterval_angle j) in *.
+  unfold AngleInterval_intersects. apply orb_true_iff.
+  (* 2 pi k = (sj - si) + u - t lies strictly between -4 pi and 4 pi *)
+  assert (Hk : (k = -1 \/ k = 0 \/ k = 1)%Z).
+  { assert (H : -2 < IZR k < 2).
+    { split; apply Rmult_lt_reg_l with (2 * PI); try lra. }
+    destruct H as [H1 H2]. apply lt_IZR in H1, H2. lia. }
+  set (d := sj - si).
+  destruct (Rle_dec 0 d) as [Hd | Hd].
+  - destruct (Rle_dec d ei) as [Hin | Hout].
+    + left. apply (contains_complete i Hi1 Hi2 sj d); [fold ei; lra|]. exists 0%Z. fold si. unfold d. simpl. change (@num RNum) with R in *. lra.
+    + right. apply (contains_complete j Hj1 Hj2 si (2 * PI - d)).
+      * fold ej. destruct Hk as [-> | [-> | ->]]; simpl IZR in Ek; unfold d in *; lra.
+      * exists (-1)%Z. fold sj. unfold d. simpl. change (@num RNum) with R in *. lra.
+  - destruct (Rle_dec (d + 2 * PI) ei) as [Hin | Hout].
+    + left. apply (contains_complete i Hi1 Hi2 sj (d + 2 * PI)); [fold ei; unfold d in *; lra|]. exists (-1)%Z. fold si. unfold d. simpl. change (@num RNum) with R in *. lra.
+    + right. apply (contains_complete j Hj1 Hj2 si (- d)).
+      * fold ej. destruct Hk as [-> | [-> | ->]]; simpl IZR in Ek; unfold d in *; lra.
+      * exists 0%Z. fold sj. unfold d. simpl. change (@num RNum) with R in *. lra.
+Qed.
